@@ -81,6 +81,13 @@ def classify_crash(prop, stderr_text, sig, phase):
         kind = m.group(1)
         seg = t[m.start():]
         fr = _frames(seg, 2) or _frames(seg, 2, repo_only=False)
+        # a report raised inside an uninstrumented third-party library before any photospline frame
+        lib = re.search(r'^\s*#[0-9]+ 0x[0-9a-f]+ in (\w+) \(/[^)]*lib(cfitsio|cholmod|spqr|openblas)[^)]*\)', seg, re.M)
+        first_repo = re.search(r'^\s*#\d+ 0x[0-9a-f]+ in .+? /[^\s:]*(/include/photospline|/src/(fitter|core|cinter|tools))', seg, re.M)
+        if lib and (not first_repo or lib.start() < first_repo.start()):
+            fr = ['in-%s' % lib.group(2), lib.group(1)] + fr[:1]
+        if seg.startswith('ERROR: AddressSanitizer: allocator is out of memory') or 'exceeds maximum supported size' in seg[:400]:
+            kind = 'out-of-memory'
         if kind in ('allocation-size-too-big', 'out-of-memory', 'requested'):
             return ('%s:asan-oom:%s:%s' % (prop, kind, '|'.join(fr) or phase), 'ASan allocator limit')
         return ('%s:asan:%s:%s' % (prop, kind, '|'.join(fr) or phase), 'AddressSanitizer ' + kind)
@@ -125,7 +132,7 @@ class Findings:
 class Pass:
     """one harness invocation family: binary + mode + number of cases"""
 
-    def __init__(self, name, target, mode, cases, args=None, env=None, stall_s=600, chunk=None, weight=1.0, wrapper=None):
+    def __init__(self, name, target, mode, cases, args=None, env=None, stall_s=600, chunk=None, weight=1.0, wrapper=None, extra_bins=None):
         self.name, self.target, self.mode, self.cases = name, target, mode, cases
         self.args = args or []
         self.env = env or {}
@@ -133,6 +140,7 @@ class Pass:
         self.chunk = chunk
         self.weight = weight
         self.wrapper = wrapper  # e.g. ['valgrind', ...]
+        self.extra_bins = extra_bins or {}   # --<key> <path of another built target>
 
 
 class Result:
@@ -276,7 +284,7 @@ def _run_range(prop, ps, binp, seed, tier, a, b, tmpdir, res, wid, verbose=False
                 break
             key, desc = classify_crash(prop, st, sig, phase)
             res.add_viol(key, dict(pass_name=ps.name, case=last_begin, seed=seed, tier=tier,
-                                   detail={'what': desc, 'rc': rc, 'phase': phase, 'stderr_tail': st[-4000:]}))
+                                   detail={'what': desc, 'rc': rc, 'phase': phase, 'stderr_tail': st[-14000:]}))
         with res.lock:
             res.cases_run += (last_begin + 1 - start)
         start = last_begin + 1
